@@ -420,6 +420,8 @@ def jobs(tier):
         out.append({"name": "flags/%02d" % fi, "flags": list(flags), "tier": tier, "kind": "load"})
     out.append({"name": "inserts", "kind": "inserts", "tier": tier})
     out.append({"name": "growth", "kind": "growth", "tier": tier})
+    out.append({"name": "redeclared-flag", "kind": "redeclared", "tier": tier})
+    out.append({"name": "any-typed-dict", "kind": "anydict", "tier": tier})
     return out
 
 
@@ -436,6 +438,12 @@ def run_job(job, ctx):
         return
     if job["kind"] == "growth":
         _growth(job, ctx)
+        return
+    if job["kind"] == "redeclared":
+        _redeclared(job, ctx)
+        return
+    if job["kind"] == "anydict":
+        _anydict(job, ctx)
         return
     tier = job["tier"]
     flags = [ABSENT if f == ABSENT else f for f in job["flags"]]
@@ -660,6 +668,147 @@ def _growth(job, ctx):
                         ctx.violation("C11|growth|%s|%s|validator-not-run" % (where or "root", call),
                                       "%s on the %s object returned without running the late field's validator" % (call, obj), case)
     ctx.sample({"growth": ["", "sub", "sub.deep", "items[]"]})
+
+
+def _redeclared(job, ctx):
+    """a key first declared as a feature flag is declared again as an ordinary boolean (at the root / in a sub-schema / in
+    an item schema) before the configuration is built: nothing is a feature flag there any more, so a false value under
+    that key exempts nothing - required fields and schema validators are enforced"""
+    import cincoconfig as cc
+    only = job.get("only")
+    for where in ("root", "sub", "items[]"):
+        for how in ("attr", "item", "setattr-twice"):
+            for value in (False, None, ABSENT):
+                for call in ("load_tree", "loads/json", "validate", "collect", "append"):
+                    ident = [where, how, value, call]
+                    if only is not None and only != ident:
+                        continue
+                    if (call == "append") != (where == "items[]") and call == "append":
+                        continue
+                    if where == "items[]" and call in ("validate", "collect"):
+                        continue
+                    s = cc.Schema()
+                    s.keep = cc.IntField(default=1)
+                    item = cc.Schema()
+                    s.items = cc.ListField(item)
+                    target = {"root": s, "sub": s.sub, "items[]": item}[where]
+                    target.enabled = cc.FeatureFlagField(default=False)
+                    if how == "attr":
+                        target.enabled = cc.BoolField(default=False)
+                    elif how == "item":
+                        target["enabled"] = cc.BoolField(default=False)
+                    else:
+                        target.enabled = cc.FeatureFlagField(default=True)
+                        target.enabled = cc.BoolField(default=False)
+                    target.r = cc.StringField(required=True)
+                    ran = []
+
+                    @cc.validator(target)
+                    def v_schema(cfg, ran=ran):
+                        ran.append(1)
+                    node = {} if value is ABSENT else {"enabled": value}
+                    tree = {"keep": 2}
+                    if where == "root":
+                        tree.update(node)
+                    elif where == "sub":
+                        tree["sub"] = node
+                    else:
+                        tree["items"] = [node]
+                    cfg = s()
+                    ctx.transitions += 1
+                    errs = None
+                    try:
+                        if call == "load_tree":
+                            cfg.load_tree(tree)
+                        elif call == "loads/json":
+                            cfg.loads(json.dumps(tree), "json")
+                        elif call == "append":
+                            cfg.items = []
+                            cfg.items.append(node)
+                        else:
+                            if value is not ABSENT:
+                                (cfg if where == "root" else cfg.sub).enabled = value
+                            errs = cfg.validate(collect_errors=True) if call == "collect" else cfg.validate()
+                        raised = None
+                    except Exception as exc:  # noqa
+                        raised = exc
+                    returned = raised is None and not errs
+                    ctx.case(("redeclared", where, how, repr(value), call), "redeclared:%s" % ("returned" if returned else "raised"), True)
+                    if returned:
+                        ctx.violation("C11|redeclared|%s|%s|returned-with-required-unset" % (where, call),
+                                      "%s: `enabled` was re-declared as a plain boolean (%s), value %r: %s returned although the required field r has no value (schema validator ran %d times)"
+                                      % (where, how, value, call, len(ran)), _case(job, ident))
+    ctx.traces += 1
+
+
+def _anydict(job, ctx):
+    """typed dicts whose key or value field is an AnyField carrying `required` or a validator: the entries are held to
+    that field like to any other (a load that returns means every entry has a value and the validator saw it)"""
+    import cincoconfig as cc
+    only = job.get("only")
+    for side in ("value", "key"):
+        for where in ("root", "sub", "items[]"):
+            for call in ("load_tree", "loads/json", "loads/yaml", "setitem", "update", "assign"):
+                for entry in ("missing", "rejected", "fine"):
+                    ident = [side, where, call, entry]
+                    if only is not None and only != ident:
+                        continue
+                    if side == "key" and entry == "missing":
+                        continue
+                    seen = []
+
+                    def check(cfg, value, seen=seen):
+                        seen.append(value)
+                        if value == "REJECT":
+                            raise ValueError("rejected by the field validator")
+                        return value
+                    anyf = cc.AnyField(required=True, validator=check)
+                    s = cc.Schema()
+                    item = cc.Schema()
+                    s.items = cc.ListField(item)
+                    target = {"root": s, "sub": s.sub, "items[]": item}[where]
+                    target.d = cc.DictField(cc.StringField(), anyf) if side == "value" else cc.DictField(anyf, cc.IntField())
+                    if side == "value":
+                        d = {"a": 1, "b": {"missing": None, "rejected": "REJECT", "fine": "v"}[entry]}
+                    else:
+                        d = {"a": 1, {"rejected": "REJECT", "fine": "b"}[entry]: 2}
+                    node = {"d": d}
+                    tree = node if where == "root" else ({"sub": node} if where == "sub" else {"items": [node]})
+                    cfg = s()
+                    ctx.transitions += 1
+                    try:
+                        if call == "load_tree":
+                            cfg.load_tree(tree)
+                        elif call.startswith("loads/"):
+                            fmt = call.split("/")[1]
+                            cfg.loads(cc.ConfigFormat.get(fmt).dumps(None, tree), fmt)
+                        else:
+                            if where == "items[]":
+                                cfg.items = [{}]
+                            holder = cfg if where == "root" else (cfg.sub if where == "sub" else cfg.items[0])
+                            if call == "assign":
+                                holder.d = d
+                            else:
+                                holder.d = {}
+                                if call == "update":
+                                    holder.d.update(d)
+                                else:
+                                    for k, v in d.items():
+                                        holder.d[k] = v
+                        raised = None
+                    except Exception as exc:  # noqa
+                        raised = exc
+                    ctx.case(("anydict", side, where, call, entry), "anydict:%s" % ("returned" if raised is None else "raised"), True)
+                    case = _case(job, ident)
+                    fp = "C11|any-typed-dict|%s|%s|%s|" % (side, where, "load" if call.startswith("load") else call)
+                    if entry != "fine" and raised is None:
+                        ctx.violation(fp + "returned-despite-" + entry, "%s with a %s %s (%s field: AnyField(required=True, validator=...)) returned normally" % (call, entry, side, side), case)
+                    elif entry == "fine":
+                        if raised is not None:
+                            ctx.violation(fp + "rejects-valid", "%s of valid entries raised %r" % (call, raised), case)
+                        elif not all(x in seen for x in (d.values() if side == "value" else d.keys())):
+                            ctx.violation(fp + "validator-not-run", "%s returned but the %s field's validator saw only %r of %r" % (call, side, seen, d), case)
+    ctx.traces += 1
 
 
 def _inserts(job, ctx):
